@@ -39,6 +39,8 @@ def scenarios(tier):
         for ref in ('cmd', 'args'):
             out.append(Scenario('sock', sset=sset, tier=tier, ref=ref))
         out.append(Scenario('sock', sset=sset, tier=tier, ref='cmd', stdin=True))
+    # a watcher WITHOUT use_sockets that gets a managed socket on its standard input (inetd style): nothing else comes along
+    out.append(Scenario('sock', sset='inet+unix', tier=tier, ref='cmd', stdin_plain=True))
     # hooks around signals and stops that raise (their failures are ignored by default): what they leave behind must not
     # change what the next generation of workers inherits
     out.append(Scenario('sock', sset='inet+unix', tier=tier, ref='cmd', hooks='raise'))
@@ -166,7 +168,8 @@ def run(scn, ch):
                 raise RuntimeError('hook backend is down')
             extra['hooks'] = {h: (boom, False) for h in ('before_signal', 'after_signal', 'before_stop', 'after_stop')}
         world = World(ch, [WSpec('u', numprocesses=2, cmd=cmd, args=args, use_sockets=True, graceful_timeout=0.1, **extra),
-                           WSpec('p', numprocesses=1, cmd='plain', graceful_timeout=0.1)], sockets=socks)
+                           WSpec('p', numprocesses=1, cmd='plain', graceful_timeout=0.1,
+                                 **({'stdin_socket': SETS[scn.sset][0][0]} if scn.p.get('stdin_plain') else {}))], sockets=socks)
         world.kernel.fd_snapshot = fd_table
         world.kernel.probe_preexec = True      # a real forked child runs Process.spawn's preexec function
         world.judged_spawns = 0
